@@ -9,7 +9,9 @@ TRUSTED = [
     "PGP symmetric decryption (x/crypto/openpgp) and PEM/PKCS parsing in front of the model: the configuration record says which passphrase decrypts and whether the plaintext parses",
     "artefact detection in responses by pattern (PEM CERTIFICATE blocks, *-cert-v01@openssh.com lines, compact JWS with a JSON header carrying alg) over body and all headers",
     "tools/extract: route table of main(); the admin mux (/readyz, /admin/inject) is driven through the handler functions directly, and once behind real TLS / plain HTTP listeners configured like main()'s admin server",
-    "the auto-unseal path (tryAwsUnseal -> unsealCA) is covered by theorems over unseal_ca only: the cloud secret manager is not reachable offline",
+    "the auto-unseal path is driven through loadVerifyConfigFile -> autoUnsealAwsLoop -> aws-sdk-go against a fake cloud inside the test process (instance-metadata service via AWS_EC2_METADATA_SERVICE_ENDPOINT; a TLS listener speaking secretsmanager.GetSecretValue under a throw-away CA, reached through the dialer and root pool of the test binary's http.DefaultTransport); only the loop's first attempt is observed",
+    "regenerated table pubkey_writes (tools/extract/c09_pubkeys.go): shape of every assignment to KeymasterPublicKeys, syntactic (append(list, e.Public()) under the lexically held mutex)",
+    "stage (e): time knobs are found by reflection over AppConfigFile (time.Duration fields, integer fields named after seconds / intervals); a periodic activity configured in any other way is not reached",
 ]
 
 def corr(ctx, res, name, label, idxfile, prefix):
